@@ -4,10 +4,13 @@
 //!   vh replay <ID> <file>
 //!   vh worker <kind>                                     one scenario on stdin, observations on stdout
 mod bigdec;
+mod eng;
+mod gen_syntax;
 mod model;
 mod props;
 mod runner;
 mod src;
+mod syntax;
 
 use runner::*;
 use std::path::PathBuf;
